@@ -27,7 +27,9 @@ ALLOWED = {"ParserSyntaxException", "ParserLabelException", "ParserOddImmediateE
            "ParserDirectiveException", "ParserDataSyntaxException", "ParserDataDuplicateException", "ParserVariableException"}
 SIZE_OK = {"MemorySizeException", "MemoryAddressError"}
 
-RV_FAULTS = ["msg: .string \"Grüße\"", "m2: .string \"日本\"", "b3: .byte 1, 2", "addi x1, x0, 01", "addi x1, x0, 007", "li x1, 0x", "li x1, 0b", "lw x1, -00(x2)", "beq x1, x2, nowhere", "jal x1, nowhere+0x4",
+LONG = "very_long_label_name_that_goes_on_and_on_and_on_0123456789_abcdefghij"
+RV_FAULTS = [LONG + ': .string "abc # never closed', " " * 60 + 'm: .string "a\\" # c', LONG + ": addi x1, x0, 1 ' # q",
+             "msg: .string \"Grüße\"", "m2: .string \"日本\"", "b3: .byte 1, 2", "addi x1, x0, 01", "addi x1, x0, 007", "li x1, 0x", "li x1, 0b", "lw x1, -00(x2)", "beq x1, x2, nowhere", "jal x1, nowhere+0x4",
              "beq x1, x2, 3", "jal x1, 7", "la x1, novar", "lw x1, novar[2]", "sw x1, novar, x2", ".data", ".text", ".bss", "x: .word 1",
              "x: .byte 0400, 08", "z: .zero 09", "z: .zero " + "9" * 4400, "li x1, " + "7" * 4400, "addi x1, x0, ٣", "addi x1, x0, １２",
              "add x1, x2", "addi x1, x2, x3", "foo: foo: nop", "loop:", "loop: nop", "ecall 5", "lui x1, -", "s: .string \"abc", "s: .string 'a#b'",
@@ -93,6 +95,8 @@ TOY_VOCAB = ["ſto", "ıNC", "LDA", "STO", "BRZ", "ADD", "NOP", "INC", "lda", ".
 
 class RvErrors(Slice):
     name = "rv-errors"
+    hang_is_violation = True          # "loading always terminates" is part of the property
+    _persistent = None
 
     def gen(self, rng, index, tier):
         r = rng.random()
@@ -104,17 +108,41 @@ class RvErrors(Slice):
         else:
             text = "".join(rng.choice(["\n", " ", "a", "0", "x", ":", ".", ",", "#", "\"", "é", " ", "(", "-", chr(rng.randrange(32, 0x250))])
                            for _ in range(rng.randrange(0, 60)))
-        return {"text": text}
+        case = {"text": text}
+        if rng.random() < 0.3:
+            ls = text.split("\n")
+            pad = ["addi x1, x0, 1"] * rng.randrange(1, 6)
+            case["prev"] = "\n".join(pad + ls)         # the same lines further down in an earlier load
+        return case
 
     def load(self, text):
         from architecture_simulator.simulation.riscv_simulation import RiscvSimulation
         RiscvSimulation().load_program(text)
+
+    def load_persistent(self, text):
+        """the web front end loads every edit into ONE simulation object"""
+        from architecture_simulator.simulation.riscv_simulation import RiscvSimulation
+        if type(self)._persistent is None:
+            type(self)._persistent = RiscvSimulation()
+        type(self)._persistent.load_program(text)
 
     def run(self, case, model):
         text = case["text"]
         d, cls = check_load_outcome(self.load, text)
         findings = [("violation", d)] if d else []
         cl = {cls}
+        # the same text on a long-lived simulation object that has seen other (failing) loads before
+        prev = case.get("prev")
+        if prev is not None:
+            try:
+                self.load_persistent(prev)
+            except Exception:
+                pass
+        d2, cls2 = check_load_outcome(self.load_persistent, text)
+        if d2:
+            findings.append(("violation", "on a simulation object that loaded other programs before: " + d2))
+        elif cls2 != cls:
+            findings.append(("violation", f"outcome on a reused simulation object ({cls2}) differs from a fresh one ({cls})"))
         # post-tokenisation comparison with the model
         try:
             tk = self.tokens(text)
@@ -180,6 +208,13 @@ class ToyErrors(RvErrors):
     def load(self, text):
         from architecture_simulator.simulation.toy_simulation import ToySimulation
         ToySimulation(unified_memory_size=self.size).load_program(text)
+
+    def load_persistent(self, text):
+        from architecture_simulator.simulation.toy_simulation import ToySimulation
+        key = "_p%s" % self.size
+        if getattr(type(self), key, None) is None:
+            setattr(type(self), key, ToySimulation(unified_memory_size=self.size))
+        getattr(type(self), key).load_program(text)
 
     def tokens(self, text):
         return TA.tokens_of(text)
